@@ -150,14 +150,16 @@ pub(crate) mod __verif_kani {
     ef_case!(c03_cursor_from, |h, len, ef, j| { let c = ef.cursor_from(j); let r = c.current(); check_after(h, len, &c, r, j); });
     //@ kind=I props=C03 bound=2_high_words(128_bits)_each_with_at_most_4_ones_at_arbitrary_positions,low_width=0 fn=EliasFano::cursor : cursor() establishes the invariant on element 0
     ef_case!(c03_cursor_new, |h, len, ef, j| { let c = ef.cursor(); let r = c.current(); check_after(h, len, &c, r, 0); });
-    //@ kind=B props=C03 bound=2_high_words(128_bits)_each_with_at_most_4_ones_at_arbitrary_positions,low_width=0 fn=EliasFano::{get,len,predecessor} : get(j) == element j (None past the end) for every j; len; predecessor(v) for every v: u32 is the last index holding the largest element <= v (None if all are greater)
-    ef_case!(c03_get_and_predecessor, |h, len, ef, j| {
+    //@ kind=I props=C03 bound=2_high_words(128_bits)_each_with_at_most_4_ones_at_arbitrary_positions,low_width=0 fn=EliasFano::{get,len} : get(j) == element j (None past the end) for every j: usize; len
+    ef_case!(c03_get, |h, len, ef, j| {
         let g = ef.get(j);
         if j < len { assert!(g == Some(val(h, j))); } else { assert!(g.is_none()); }
         assert!(ef.len() == len);
+    });
+    //@ kind=B props=C03 tier=thorough bound=2_high_words(128_bits)_each_with_at_most_4_ones_at_arbitrary_positions,low_width=0 fn=EliasFano::predecessor : predecessor(v) for every v: u32 is the last index holding the largest element <= v (None if all are greater)
+    ef_case!(c03_predecessor, |h, len, ef, j| {
         let v: u32 = kani::any();
         let p = ef.predecessor(v);
-        // definition: last index i with val(i) <= v
         let mut best: Option<(usize, u32)> = None;
         let mut i = 0;
         while i < 8 { if i < len { let x = val(h, i); if x <= v { best = Some((i, x)); } } i += 1; }
